@@ -66,6 +66,21 @@ impl Arena {
     }
 }
 
+#[cfg(feature = "verif")]
+impl Arena {
+    /// Verification hook (read-only): address and length of every buffer the arena owns,
+    /// current buffer last.
+    pub fn verif_buffers(&self) -> Vec<(usize, usize)> {
+        let inner = unsafe { &*self.inner.get() };
+        inner
+            .old_bufs
+            .iter()
+            .chain(std::iter::once(&inner.current_buf))
+            .map(|b| (b.as_ptr() as usize, b.len()))
+            .collect()
+    }
+}
+
 impl Default for Arena {
     fn default() -> Self {
         Arena::new()
